@@ -64,6 +64,36 @@ def gen_faults(lo: int, hi: int, rep: core.Report):
     return out
 
 
+MODEL_CFG = '''CONSTANTS
+  SeedLo = %d
+  SeedHi = %d
+  WithProps = %s
+  WithComments = %s
+INIT Init
+NEXT Next
+INVARIANT DesignRoundTrip
+INVARIANT DesignFixpoint
+INVARIANT EmitModel
+CHECK_DEADLOCK FALSE
+'''
+
+
+def gen_models(lo: int, hi: int, with_props: bool, with_comments: bool, rep: core.Report):
+    """documents together with their models ParseDoc(doc) (GenModel.tla); TLC checks the design-level
+    round trip and fixpoint on each.  -> [(seed, {'doc':..., 'model':..., 'reforder': bool})]"""
+    res = tlc.require_ok(tlc.run('MC_GenModel', cfg_text=MODEL_CFG % (lo, hi, 'TRUE' if with_props else 'FALSE',
+                                                                     'TRUE' if with_comments else 'FALSE'),
+                                 workers=core.NCPU, timeout=3000), 'MC_GenModel')
+    if res.violated:
+        raise core.Machinery('design-level property %s violated in MC_GenModel\n%s' % (res.violated, res.out[-3000:]))
+    rep.add_tlc('MC_GenModel seeds %d..%d props=%s comments=%s' % (lo, hi, with_props, with_comments), res)
+    out = [(p[1], json.loads(p[2])) for p in res.prints if p and p[0] == 'DOC']
+    if not out:
+        raise core.Machinery('generator MC_GenModel produced no models')
+    out.sort(key=lambda x: x[0])
+    return out
+
+
 def form_plan(nrandom: int, sweep: bool, base_seed: int) -> List[Tuple[Optional[int], Dict[str, Any]]]:
     """the forms each document is printed in: canonical, every single dimension pinned to every
     non-default value (sweep), and seeded random combinations of all dimensions"""
